@@ -16,8 +16,10 @@
   * Tie to /repo (Cog/Gen/MapRangeSites.lean, regenerated on every run by extract/xmaprange):
     every map range of the module with its classified effects; `C03_sites` decides the whole
     table.  `C03_purity` does the same for clocks, randomness, goroutines, environment.
-  * The full statement `C03_full` is FALSE on the current tree: eight sites are order-dependent
-    (`Cog.Det.knownNondeterministic`), each replayed on the real code by the harness.
+  * On the pinned tree the full statement was false: eight sites were order-dependent, each
+    replayed on the real code by the harness.  They have since been repaired in /repo (`fix:`
+    commits), `Cog.Det.knownNondeterministic` is empty again and `C03_full` is proved.  The
+    list and `C03_full_counterexample` stay as the mechanism for future findings.
 -/
 import Cog.Det.Prog
 import Cog.Det.Review
@@ -93,13 +95,24 @@ theorem C03_sites :
   · exact Or.inr (Or.inr (Or.inl h3))
   · exact Or.inr (Or.inr (Or.inr h4))
 
+/-- **The full statement holds on the current tree**: every map range that a run can reach is
+    proved order-insensitive or reviewed; no site needs the known list. -/
+theorem C03_full_holds : C03_full := by
+  have h : ∀ s ∈ Gen.mapRangeSites, (s.outsideRun || s.proved || s.reviewed) = true := by decide
+  intro s hs
+  have := h s hs
+  simp only [Bool.or_eq_true] at this
+  rcases this with (h1 | h2) | h3
+  · exact Or.inl h1
+  · exact Or.inr (Or.inl h2)
+  · exact Or.inr (Or.inr h3)
+
 /-- the listed sites are not admissible by construction: each has a non-admissible effect -/
 theorem C03_known_are_nonadmissible :
     ∀ k ∈ knownNondeterministic, k.effects.all Effect.admissible = false := by decide
 
 /-- `C03_full` fails as soon as one listed site is present in the table and is neither
-    reviewed nor outside a run (which is the case today for all eight; the check counts them
-    and replays each one on the real code). -/
+    reviewed nor outside a run (the form in which a future finding is recorded). -/
 theorem C03_full_counterexample (s : Site) (hs : s ∈ Gen.mapRangeSites) (hk : s.known = true)
     (ho : s.outsideRun = false) (hr : s.reviewed = false) : ¬ C03_full := by
   intro hfull
@@ -107,7 +120,7 @@ theorem C03_full_counterexample (s : Site) (hs : s ∈ Gen.mapRangeSites) (hk : 
   · rw [ho] at h; cases h
   · have hadm : s.effects.all Effect.admissible = true := by
       simp only [Site.proved, Site.admissible, Bool.and_eq_true] at h
-      exact h.1.1
+      exact h.1.1.1
     have hmem : s.key ∈ knownNondeterministic := by
       simpa [Site.known, List.contains_iff_mem] using hk
     have := C03_known_are_nonadmissible s.key hmem
